@@ -211,15 +211,21 @@ def r2_relations(ctx):
     ctx.floor("tip offset assignment", len(ws), 1)
     for n in ws:
         v = n.value
+        if isinstance(v, ast.Name):
+            v = R.reaching_value(v) or v
+        rgt = v.right if isinstance(v, ast.BinOp) else None
+        if isinstance(rgt, ast.Name):
+            # the offset held in a local
+            rgt = R.reaching_value(rgt) or rgt
         ok = isinstance(v, ast.BinOp) and isinstance(v.op, ast.Sub) and \
             R.text(v.left) == "apret['tip position']" and isinstance(
-                v.right, ast.Subscript) and R.text(v.right.value) == \
+                rgt, ast.Subscript) and R.text(rgt.value) == \
             "apret['tip position']"
         ctx.check(ok, n, f"tip position = {norm(v)[:70]}",
                   "the tip offset correction does not subtract the tip "
                   "position at one index from the whole column")
         if ok:
-            idx = v.right.slice
+            idx = rgt.slice
             src = None
             for st in walk_no_nested(f, False):
                 if isinstance(st, ast.Assign) and any(
